@@ -50,6 +50,28 @@ int main(void)
 		char *a[16];
 		int n = 0;
 		line[strcspn(line, "\r\n")] = 0;
+		if (!strncmp(line, "z.seq ", 6)) {
+			/* z.seq ZONE <table for the model> # u:HEX l:HEX o:HEX …  : fresh zone object, then a sequence of
+			 * local->UTC (u), UTC->local (l) conversions and offset look-ups (o) */
+			char *zone = line + 6;
+			char *sp = strchr(zone, ' ');
+			char *hash = strchr(zone, '#');
+			if (!sp || !hash) { puts("bad-op"); continue; }
+			*sp = 0;
+			/* the zone is interned on first use (at most 63 distinct zones per process, tzob.c's
+			 * limit); its range cache persists for the rest of the process */
+			echs_tzob_t z = echs_tzob(zone, strlen(zone));
+			int first = 1;
+			for (char *p = strtok(hash + 1, " "); p; p = strtok(NULL, " ")) {
+				echs_instant_t i = rdi(p + 2);
+				if (*p == 'u') printf("%s%016" PRIx64, first ? "" : " ", echs_instant_utc(i, z).u);
+				else if (*p == 'l') printf("%s%016" PRIx64, first ? "" : " ", echs_instant_loc(i, z).u);
+				else printf("%s%d", first ? "" : " ", echs_tzob_offs(z, i, 0));
+				first = 0;
+			}
+			putchar('\n');
+			continue;
+		}
 		if (!strncmp(line, "q.isort", 7) || !strncmp(line, "q.esort", 7)) {
 			/* q.isort H…  /  q.esort H… : sort instants / events tagged with their input index */
 			int ev = line[2] == 'e';
@@ -143,6 +165,37 @@ int main(void)
 			printf("%u\n", echs_scale_ndim((echs_scale_t)atoi(a[1]), atoi(a[2]), atoi(a[3])));
 		} else if (!strcmp(op, "c.wday") && n == 5) {
 			printf("%u\n", (unsigned)echs_scale_wday((echs_scale_t)atoi(a[1]), atoi(a[2]), atoi(a[3]), atoi(a[4])));
+		} else if (!strcmp(op, "z.glibc") && n >= 3) {
+			/* oracle: the system's zone database through glibc.
+			 * z.glibc ZONE u:Y-M-D-h-m-s (mktime, both isdst guesses) / l:EPOCH (localtime) */
+			setenv("TZ", a[1], 1);
+			tzset();
+			int first = 1;
+			for (int k = 2; k < n; k++) {
+				for (char *p = strtok(a[k], " "); p; p = strtok(NULL, " ")) {
+					if (*p == 'l') {
+						time_t t = strtoll(p + 2, NULL, 10);
+						struct tm tm;
+						localtime_r(&t, &tm);
+						printf("%s%d-%d-%d-%d-%d-%d/%ld", first ? "" : " ", tm.tm_year + 1900, tm.tm_mon + 1, tm.tm_mday,
+						       tm.tm_hour, tm.tm_min, tm.tm_sec, tm.tm_gmtoff);
+					} else {
+						struct tm tm = {0};
+						int Y, M, D, h, m, sec;
+						sscanf(p + 2, "%d-%d-%d-%d-%d-%d", &Y, &M, &D, &h, &m, &sec);
+						long r[2];
+						for (int dst = 0; dst < 2; dst++) {
+							memset(&tm, 0, sizeof(tm));
+							tm.tm_year = Y - 1900; tm.tm_mon = M - 1; tm.tm_mday = D;
+							tm.tm_hour = h; tm.tm_min = m; tm.tm_sec = sec; tm.tm_isdst = dst;
+							r[dst] = (long)mktime(&tm);
+						}
+						printf("%s%ld/%ld", first ? "" : " ", r[0], r[1]);
+					}
+					first = 0;
+				}
+			}
+			putchar('\n');
 		} else {
 			puts("bad-op");
 		}
